@@ -363,6 +363,10 @@ def s_put(vc):
     post = observe(vc, flow)
     updated = view.updated.items if vc.mode == "sym" else view.updated
     if out.ok:
+        if not has_response and any(sec == "response" for sec, _, _ in vals):
+            # there is no response to edit: the document cannot be applied completely, so it must be rejected (and, below, leave no trace)
+            vc.ensure("no_response.document_with_response_part_rejected", False)
+            return
         want = spec_apply(vc, dict(pre), vals)
         for (field, got) in post:
             if want[field] is not None or field.endswith("trailers"):
@@ -461,7 +465,7 @@ def bounded(tier, seed):
     depth = 2 if tier == "quick" else 3
     b.rule = ("PUT /flows/<id> on the real mitmweb Application with edit documents built from ordered selections of a 26-entry menu of valid and invalid field edits "
               "(unknown field at each level, port 'x'/null, status code 'x', header/trailer lists of wrong arity, non-string content, lone-surrogate method/host) x "
-              "{fresh flow, flow with an earlier successful edit}, plus: an accepted single-field edit followed by a rejected document whose first entry restores that field's original value; checked: valid document => 200 and every field applied; rejected document (status >= 400) => "
+              "{fresh flow, flow with an earlier successful edit}, plus: flows without a response x documents with a response part; an accepted trailers edit ([] / one pair) followed by a rejected document that replaces the trailers; an accepted single-field edit followed by a rejected document whose first entry restores that field's original value; checked: valid document => 200 and every field applied; rejected document (status >= 400) => "
               "flow state (get_state without the backup slot) exactly as before the request; distinct = (entries in order, prior edit); non-trivial = document mixes valid and invalid entries")
     b.bound = f"all ordered selections of <= {depth} menu entries (documents with a repeated key are skipped) + documents whose section entry is not an object"
     b.exhaustive = True
@@ -542,6 +546,45 @@ def bounded(tier, seed):
                     b.fail("put.invalid_document_rejected", inp, f"status {r2.code}")
                 elif _core(f.get_state()) != before or f.modified() != was_modified:
                     b.fail("put.atomic.rejected_edit_undoing_an_earlier_one", inp, f"status {r2.code}; {sec}.{key} is now {_read_field(f, sec, key)!r}, was {newval!r}")
+        # ---- a flow that has no response (yet): a document with a response part cannot be applied completely => rejected, untouched
+        from mitmproxy.test import tflow as _tflow
+        resp_entries = [e for e in MENU if e[1] == "response"]
+        req_valid = [e for e in MENU if e[1] in ("request", "") and e[4] is True][:4]
+        combos = [[e] for e in resp_entries] + [[a, e] for e in resp_entries[:6] for a in req_valid] + [[e, a] for e in resp_entries[:6] for a in req_valid]
+        for entries in combos:
+            doc = _doc_of(entries)
+            if doc is None:
+                continue
+            f = _tflow.tflow(resp=False)
+            f.id = "42"
+            w.view.clear()
+            w.view.add([f])
+            before = _core(f.get_state())
+            r = w.request("PUT", "/flows/42", json_body=doc)
+            b.case(("no-response", tuple(e[0] for e in entries)), nontrivial=True)
+            inp = {"flow": "no response yet", "entries": [e[0] for e in entries], "document": doc}
+            if r.code < 400:
+                b.fail("put.no_response.response_part_rejected", inp, f"status {r.code}")
+            if _core(f.get_state()) != before:
+                b.fail("put.no_response.untouched", inp, f"status {r.code}")
+        # ---- trailers edited in place: an accepted edit leaves an (empty / non-empty) trailers object, then a rejected document
+        #      that replaces the trailers before its invalid part must not leave the new trailers behind
+        for which in ("request", "response"):
+            for first_trailers in ([], [["a", "b"]]):
+                for bad in [e for e in MENU if e[4] is False and e[2] != "trailers"]:
+                    f = fresh(False)
+                    r1 = w.request("PUT", "/flows/42", json_body={which: {"trailers": first_trailers}})
+                    second = _doc_of([("trailers", which, "trailers", [["t", "u"], ["v", "w"]], True), bad])
+                    b.case(("trailers-in-place", which, len(first_trailers), bad[0]), nontrivial=True)
+                    if r1.code != 200 or second is None:
+                        continue
+                    before = _core(f.get_state())
+                    r2 = w.request("PUT", "/flows/42", json_body=second)
+                    inp = {"first_edit": {which: {"trailers": first_trailers}}, "rejected_edit": second}
+                    if r2.code < 400:
+                        b.fail("put.invalid_document_rejected", inp, f"status {r2.code}")
+                    elif _core(f.get_state()) != before:
+                        b.fail("put.atomic.trailers_edited_in_place", inp, f"status {r2.code}; trailers now {_read_field(f, which, 'trailers')!r}")
         for doc in ({"request": 5}, {"response": "x"}, {"request": {"method": "PUT"}, "response": None}, {"request": ["method"]}, {"marked": ":red_circle:", "request": 7}):
             for prior in (False, True):
                 f = fresh(prior)
